@@ -5,6 +5,7 @@ CONSTANTS
   Stems = {"def", "ovr"}
   SupTpls = {FALSE, TRUE}
   NsVals = {FALSE, TRUE}
+  Shapes = {"plain"}
   Wipes = TRUE
   PFiles = {}
   MaxLo = 2
@@ -15,6 +16,7 @@ CONSTANTS
   QuickOnly = FALSE
   FwdOmitToList = TRUE
   ListDeps = TRUE
+  OwnByPrefix = FALSE
   ListUserSup = TRUE
 INVARIANT Refines
 INVARIANT DomainAsPredicted
